@@ -20,8 +20,11 @@ PY
 rc=$?
 if [ $rc -ne 0 ]; then git checkout -- . ; exit 3; fi
 git diff --stat | tail -1
+# evidence written while /repo is modified describes the mutant, not the tree: keep the real files
+EVBAK=$(mktemp -d /verif/target/evbak.XXXXXX); cp -a /verif/evidence/. "$EVBAK"/ 2>/dev/null
 ( cd /verif && "$@" )
 rc=$?
 git checkout -- .
+cp -a "$EVBAK"/. /verif/evidence/ 2>/dev/null; rm -rf "$EVBAK"
 echo "mutation run exit=$rc"
 exit $rc
